@@ -91,6 +91,41 @@ theorem filter_sound_and_complete (re : Regex) (ty : String) (c p : Option Strin
   have := matchCore_spec Cfg.fixed rfl re ty c p v
   exact ⟨fun x hx => (this.1 x hx).1, this.2⟩
 
+/-- submission requirements: a requirement that succeeds (schema: `count ≥ 1`) returns a selection (in order, a
+    sub-list) of its selectable members — group candidates for `from`, nested results for `from_nested` — whose size
+    satisfies the rule: `all` = every member; `pick` = exactly `count`, or between `min` and `max`. -/
+theorem match_sound_rules (cands : List Cand) (s : SR) (hc : s.count ≠ some 0) (l : List Cred)
+    (h : SR.matchSR Facts.C12.cfg cands s = .ok l) :
+    ∃ members, MembersOf Facts.C12.cfg cands s members ∧
+      ∃ sel : List (List Cred), sel.Sublist (available members) ∧ l = sel.flatten ∧
+        RuleOK s.rule s.count s.min s.max members.length (available members).length sel.length := by
+  rw [fact_cfg_fixed] at h ⊢
+  exact sr_rule_ok Cfg.fixed rfl rfl rfl cands s hc l h
+
+/-! ### `match_complete_or_error`: an error instead of a partial selection, and only when no complete one exists -/
+
+/-- Without submission requirements (a successful match is never partial: `match_sound`): when `Match` fails, either
+    the evaluation itself failed (unsupported value kind, regexp or JSONPath error — reported as such), or some input
+    descriptor has NO satisfying credential in the wallet. Assumption `hs`: an error ignored by the `enum` loop did not
+    hide a match (fails only for an array in which a null/object element precedes the matching string). -/
+theorem match_complete_or_error (re : Regex) (pd : PD) (wallet : List Cred)
+    (hs : ∀ c ∈ wallet, ∀ p v, getValueAtPath p c.tree = some v → EnumErrorsHideNothing Facts.C12.cfg re v)
+    (hsr : pd.srs = []) (e : String) (h : pdMatch Facts.C12.cfg re pd wallet = .err e) :
+    (∃ d ∈ pd.descs, ∀ c ∈ wallet, ¬ Satisfies re pd d c) ∨ ∃ e', matchConstraints Facts.C12.cfg re pd wallet pd.descs = .err e' := by
+  rw [fact_cfg_fixed] at h hs ⊢
+  exact matchBasic_complete Cfg.fixed rfl re pd wallet hs hsr e h
+
+/-- With submission requirements: a requirement that fails is malformed, or NO selection of its members satisfies
+    its rule (so the wallet reports missing credentials exactly when no complete selection exists) -/
+theorem match_complete_or_error_rules (cands : List Cand) (s : SR) (e : String)
+    (h : SR.matchSR Facts.C12.cfg cands s = .err e) :
+    (e = "sr-both" ∨ e = "sr-missing" ∨ e = "sr-rule") ∨
+    ∃ members, MembersOf Facts.C12.cfg cands s members ∧
+      ∀ sel : List (List Cred), sel.Sublist (available members) →
+        ¬ RuleOK s.rule s.count s.min s.max members.length (available members).length sel.length := by
+  rw [fact_cfg_fixed] at h ⊢
+  exact sr_error_complete Cfg.fixed rfl cands s e h
+
 /-! ### `forged_mapping_rejected`: what the verifier accepts -/
 
 /-- If `Validate` accepts a submission for an envelope with at least one presentation (credentials parsed from an
@@ -264,6 +299,28 @@ theorem old_code_accepts_shadowed_entry :
     (validate Cfg.old reDemo (fun v f => if f == "jwt_vc" then some { cred := some demoCred } else demoDecode v f) demoPD
       { demoEnv with asInterface := .obj [("verifiableCredential", .arr [.str "a", .str "b", .str "c", .str "d", .str "e", .str "f", .str "g", .str "h"])] }
       [{ top := { id := "d1", fmt := "jwt_vc", path := some (vcPath 7) } }, { top := { id := "d1", fmt := "jwt_vc", path := some (vcPath 0) } }]).isOk = true := by decide
+
+/-- `pick` with `max: 0` selected every selectable member; `min: 2, max: 1` returned one credential -/
+def wTwo : List Cand := [({ id := "d1", group := ["A"] }, some wCred), ({ id := "d2", group := ["A"] }, some { wCred with name := "c1", key := "k1" })]
+theorem old_code_max_zero_selects_all :
+    (match SR.matchSR Cfg.old wTwo (.mk "" "pick" none none (some 0) "A" []) with | .ok l => l.length | _ => 99) = 2 := by decide
+theorem old_code_min_above_max_returns_partial :
+    (match SR.matchSR Cfg.old wTwo (.mk "" "pick" none (some 2) (some 1) "A" []) with | .ok l => l.length | _ => 99) = 1 := by decide
+example : (match SR.matchSR Cfg.fixed wTwo (.mk "" "pick" none none (some 0) "A" []) with | .ok l => l.length | _ => 99) = 0 := by decide
+example : (SR.matchSR Cfg.fixed wTwo (.mk "" "pick" none (some 2) (some 1) "A" [])).cls = "err:nocred" := by decide
+/-- non-vacuity of `match_sound_rules` / `match_complete_or_error_rules` -/
+example : (SR.matchSR Cfg.fixed wTwo (.mk "" "pick" (some 1) none none "A" [])).isOk = true := by decide
+example : (SR.matchSR Cfg.fixed wTwo (.mk "" "pick" (some 3) none none "A" [])).cls = "err:nocred" := by decide
+/-- non-vacuity of `match_complete_or_error`: values without null/object elements never make the enum loop err -/
+example : EnumErrorsHideNothing Cfg.fixed reNone (.arr [.str "A", .str "B"]) := by
+  intro e msg h
+  exfalso
+  by_cases h1 : "A" = e <;> by_cases h2 : "B" = e <;> simp [matchCore, matchAny, filterTail, constOK, h1, h2] at h
+
+/-- non-vacuity of `wallet_verifier_agree_partial`: re-matching the presented credential is stable, the envelope carries it -/
+example : pdMatch Cfg.fixed reDemo demoPD [demoCredJwt] = .ok ([mkMapping "d1" "jwt_vc" 0], [demoCredJwt]) := rfl
+example : Carries demoDecode demoEnv.asInterface (rewriteSingle [mkMapping "d1" "jwt_vc" 0]) [demoCredJwt] :=
+  ⟨⟨demoCred, rfl, rfl⟩, trivial⟩
 
 /-- the repaired control flow on the same inputs -/
 example : (pdMatch Cfg.fixed reNone { descs := [wDescPattern] } [wCred]).cls = "err:nocred" := by decide
